@@ -284,7 +284,8 @@ def nest3_cases():
 # {{{ random printable trees
 
 NAMES = ("x", "y", "z", "_a", "a1", "A_b", "android", "iffy", "nota", "orange",
-         "elsewhere", "e1", "d", "Truex", "Falsey", "$v", "@k", "not_", "x_if")
+         "elsewhere", "e1", "d", "Truex", "Falsey", "$v", "@k", "not_", "x_if",
+         "not_ready", "or_mask", "if_", "else_0", "True_", "False_positive", "and_")
 FRAG = S.EVALUABLE.without("Min", "Max", "CommonSubexpression").but(
     np_consts=True, float_consts=(0.5, -1.5, 2.0, 0.25, -0.0, 1.0, 1e-07, 1e+22, -3e-05),
     int_consts=(-3, -2, -1, 0, 1, 2, 3, 4, 5, 7, 10, -100, 12345678901234567890),
